@@ -235,9 +235,8 @@ def sym_tuple_source(vc):
                         check(it_, 'skipped-iterator-consumed-selected-iterator-untouched' + tag, z3.And(
                             z3.Implies(m, _b(not drained)), z3.Implies(z3.Not(m), _b(drained))))
                     cover(it_, 'pair-reachable' + tag)
-                it.loops['<top>#X0'] = LoopSpec(at_end=p_end)
-                it.loops['load.selected_iterators#L0'] = LoopSpec(at_end=p_end)
-                it.loops['selected_iterators#L0'] = LoopSpec(at_end=p_end)
+                # (one contract, whichever shape the lazy filter has: a generator expression or a generator function)
+                it.loops['<top>#X0'] = it.loops['load.selected_iterators#L0'] = it.loops['selected_iterators#L0'] = LoopSpec(at_end=p_end)
                 n_before = len(it.path.events)
                 if isinstance(its, GenObj):
                     it.run_generator(its)
